@@ -240,6 +240,7 @@ PROPS["C12"] = {
 
 PROPS["C03"] = {
     "harnesses": [
+        {"pkg": ".", "dir": "s3db", "entry": "VerifH_C03_paged_list", "quick": {"workers": 4, "timeout": 600}},
         {"pkg": ".", "dir": "s3db", "entry": "VerifH_C03_open_vs_commit", "no_native": True,
          "quick": {"params": "preempt=2", "workers": 16, "timeout": 1800},
          "thorough": {"params": "preempt=4", "workers": 16, "timeout": 7200}},
@@ -248,7 +249,7 @@ PROPS["C03"] = {
          "thorough": {"params": "preempt=3", "workers": 16, "timeout": 7200}},
     ],
     "bounds": "all interleavings with at most 2 (quick) | 4 and 3 (thorough) preemptive context switches, at object-store-request granularity, of (1) one client committing a row on top of v0 and one client opening (read-only | writable) and scanning, (2) two clients opening writable on two unmerged versions; followed by sequential later opens",
-    "outside": "LIST pagination, eventually consistent stores (the stub is linearizable per request), more than 2 concurrent clients, more than one commit per client",
+    "outside": "LIST pagination races (sequential pagination is covered), eventually consistent stores (the stub is linearizable per request), more than 2 concurrent clients, more than one commit per client",
     "assumptions": [TIME_RANGE, "a client's internal goroutines (mast flush workers) run in a fixed order; only the order of requests between clients is explored", "engine-only: schedules are not replayed natively"],
 }
 
